@@ -2,6 +2,8 @@
 (* sfc_models/equation_parser.py: EquationParser.ParseString - the line loop that     *)
 (* sorts the lines of an equation block into classes.                                  *)
 (*                                                                                    *)
+(* One action per line FORM, Finish (ParseString returns) and Begin (ParseString is called *)
+(* again on the same object: block B after block A).                                       *)
 (* One action per line FORM.  A form is a record                                       *)
 (*   [kind, v, r, cc, sp]                                                              *)
 (*   kind  "eq"       v = <r>                   simultaneous equation                  *)
@@ -44,7 +46,8 @@ EXTENDS Integers, Sequences, FiniteSets, TLC
 CONSTANTS
     LineForms,      \* the alphabet: set of forms
     FirstForms,     \* forms admitted as the first line of a block
-    MaxLines,       \* bound on the number of lines
+    MaxLines,       \* bound on the number of lines (of all blocks together)
+    MaxBlocks,      \* bound on the number of ParseString calls on the one parser object
     AsFound_MarkerTestedOnRawLine
 
 Kinds == {"eq", "lag1", "lag2", "lag3", "ic", "maxtime", "errtol", "usert",
@@ -81,7 +84,7 @@ IsForm(f) ==
     /\ f.kind = "errtol" => f.v = "Err_Tolerance"
 
 ASSUME \A f \in LineForms \cup FirstForms : IsForm(f)
-ASSUME AsFound_MarkerTestedOnRawLine \in BOOLEAN /\ MaxLines \in Nat
+ASSUME AsFound_MarkerTestedOnRawLine \in BOOLEAN /\ MaxLines \in Nat /\ MaxBlocks \in Nat
 
 WellFormed(f) == f.kind \in OneEq
 (* a line that defines the time axis ('t(0) = ..' does not) *)
@@ -138,17 +141,23 @@ LineOp(s, f) ==
 
 FinishOp(s) == IF s.foundT THEN s ELSE [s EXCEPT !.Endogenous = Append(@, DefaultT)]
 
+(* a further ParseString call on the same object starts from scratch: nothing that an   *)
+(* earlier block put into the object survives (the classification is a function of the *)
+(* block alone)                                                                        *)
+BeginOp(s) == S0
+
 RECURSIVE RunLines(_, _)
 RunLines(s, fs) == IF fs = << >> THEN s ELSE RunLines(LineOp(s, Head(fs)), Tail(fs))
 
 ----------------------------------------------------------------------------
 VARIABLES mode, foundT, Endogenous, Lagged, Exogenous, InitialConditions, MaxTime, ErrTol,
           msgs, cls,
-          hist,     \* the line forms processed so far (history)
-          done      \* ParseString has returned
+          hist,     \* the line forms of the current block processed so far (history)
+          done,     \* ParseString has returned
+          blocks    \* the blocks of the earlier ParseString calls on this object (history)
 
 pvars == << mode, foundT, Endogenous, Lagged, Exogenous, InitialConditions, MaxTime, ErrTol, msgs, cls >>
-vars == << pvars, hist, done >>
+vars == << pvars, hist, done, blocks >>
 
 Cur == [mode |-> mode, foundT |-> foundT, Endogenous |-> Endogenous, Lagged |-> Lagged,
         Exogenous |-> Exogenous, InitialConditions |-> InitialConditions, MaxTime |-> MaxTime,
@@ -164,21 +173,35 @@ Is(s) == /\ mode = s.mode /\ foundT = s.foundT /\ Endogenous = s.Endogenous
          /\ InitialConditions = s.InitialConditions /\ MaxTime = s.MaxTime
          /\ ErrTol = s.ErrTol /\ msgs = s.msgs /\ cls = s.cls
 
-Init == Is(S0) /\ hist = << >> /\ done = FALSE
+Init == Is(S0) /\ hist = << >> /\ done = FALSE /\ blocks = << >>
+
+RECURSIVE SumLen(_)
+SumLen(bs) == IF bs = << >> THEN 0 ELSE Len(Head(bs)) + SumLen(Tail(bs))
+TotalLines == SumLen(blocks) + Len(hist)
 
 Line(f) == /\ ~done
-           /\ Len(hist) < MaxLines
+           /\ TotalLines < MaxLines
            /\ Become(LineOp(Cur, f))
            /\ hist' = Append(hist, f)
-           /\ UNCHANGED done
+           /\ UNCHANGED << done, blocks >>
 
 Finish == /\ ~done
           /\ Become(FinishOp(Cur))
           /\ done' = TRUE
-          /\ UNCHANGED hist
+          /\ UNCHANGED << hist, blocks >>
 
-Next == \/ \E f \in LineForms : (Len(hist) = 0 => f \in FirstForms) /\ Line(f)
+(* ParseString is called again on the same parser object *)
+Begin == /\ done
+         /\ Len(blocks) + 1 < MaxBlocks
+         /\ Become(BeginOp(Cur))
+         /\ blocks' = Append(blocks, hist)
+         /\ hist' = << >>
+         /\ done' = FALSE
+
+Next == \/ /\ ~done /\ TotalLines < MaxLines          \* (the guard of Line, tested once)
+           /\ \E f \in LineForms : (Len(hist) = 0 => f \in FirstForms) /\ Line(f)
         \/ Finish
+        \/ Begin
 
 Spec == Init /\ [][Next]_vars
 
@@ -267,9 +290,16 @@ C14_MalformedReported ==
     /\ msgs = MsgsOf(hist, N)
     /\ \A i \in 1..N : hist[i].kind \in Malformed => cls[i] = "none"
 
+(* what a call reports is a function of its block alone: the state of a fresh parser that *)
+(* was given the same block, whatever blocks the object parsed before                     *)
+C14_BlockAlone == Cur = (IF done THEN FinishOp(RunLines(S0, hist)) ELSE RunLines(S0, hist))
+
 (* processing a line with any trailing comment = processing it without *)
 Commented == { f \in LineForms : f.cc # "none" }      \* for the others the claim is trivial
-C14_CommentsInert == LET s == Cur IN \A f \in Commented : LineOp(s, f) = LineOp(s, NoComment(f))
+(* (stated for the states in which ParseString can still be given a line)                 *)
+C14_CommentsInert ==
+    (~done /\ TotalLines < MaxLines) =>
+        LET s == Cur IN \A f \in Commented : LineOp(s, f) = LineOp(s, NoComment(f))
 
 TypeOK == /\ mode \in {"endogenous", "exogenous"}
           /\ foundT \in BOOLEAN /\ done \in BOOLEAN
